@@ -6,6 +6,7 @@ from .. import common as C
 from .. import core
 from .. import truth as TR
 from .. import world as W
+from .. import xpy
 from . import _ws
 
 ID = 'C11'
@@ -22,7 +23,31 @@ RULE = ('fault-free worlds (0/1/many tests per layer); seeds from {0, negative, 
         'was shuffled')
 RULE += (' ' + 'Later additions: test objects with countTestCases() != 1; foreign draws from the module-level random generator between the lines of shuffle.py.')
 SEED_RE = re.compile(r'Tests were shuffled using seed number (-?\d+)\.')
-ASSUMPTIONS = ['"on every supported Python version" is checked on CPython 3.12.1 only']
+RULE += (' Cross-version tier (directed specs): with the reported seed the same world runs as REAL '
+         'processes (sequentially, as --list-tests and with -j 2) under every other supported CPython '
+         'found on the machine (3.9, 3.10, 3.11, 3.13); per layer the order must equal the order of '
+         'the simulated run on 3.12.')
+ASSUMPTIONS = ['"on every supported Python version": the simulator itself runs on CPython 3.12.1; the '
+               'other supported versions (3.9, 3.10, 3.11, 3.13) are covered by the directed '
+               'cross-version specs only, as real processes borrowing the pure-Python dependencies '
+               'of the 3.12 environment; PyPy is not available']
+
+
+_NEW_STR = re.compile(r'^(\w+) \((.*)\.\1\)$')
+
+
+def _one_spelling(sid):
+    return _NEW_STR.sub(r'\1 (\2)', sid)
+
+
+def directed(tier, base_seed):
+    out = []
+    n = 10 if tier == 'quick' else 200
+    for k in range(n):
+        spec = gen(6600000 + base_seed * 1013 + k)
+        spec['xpy'] = True
+        out.append(spec)
+    return out
 
 
 def gen(seed):
@@ -220,8 +245,32 @@ def run(spec, ctx):
         if got_t != want_t:
             viols.append(C.viol('C11/shuffled-run-executes-other-tests',
                                 'with -t TC0: ran %r, selected %r' % (got_t, want_t)))
+    xprobes = {}
+    if spec.get('xpy') and not lst.raised:
+        sid = {d['tid']: d['sid'] for d in m.discover()}
+        want = {l: [sid[t] for t in ts] for l, ts in os_.items()}
+        for ver, py in xpy.interpreters():
+            for mode, o in (('sequential', ropt), ('list', dict(ropt, list=True)),
+                            ('parallel', dict(ropt, j=2))):
+                real = xpy.execute(spec, argv_fix(o, src), ctx.scratch, py)
+                if real is None or real.raised:
+                    xprobes['xpy_unavailable'] = xprobes.get('xpy_unavailable', 0) + 1
+                    continue
+                xprobes['xpy_runs_py' + ver] = xprobes.get('xpy_runs_py' + ver, 0) + 1
+                if mode == 'list':
+                    # (str(test) names the method twice from 3.11 on: compare one spelling)
+                    got = {l: [_one_spelling(x) for x in t]
+                           for l, t in C.parse_listing(real.text) if l != '.EmptyLayer'}
+                    exp = {l: [_one_spelling(x) for x in t] for l, t in want.items()}
+                else:
+                    got = flat(orders(m, TR.Truth(m, real.trace)))
+                    exp = os_
+                if got != exp:
+                    viols.append(C.viol('C11/python-versions-disagree/%s/py%s' % (mode, ver),
+                                        'seed %d, %s under CPython %s (real processes): %r; '
+                                        'under 3.12: %r' % (reported, mode, ver, got, exp)))
     shuffled_big = sum(1 for l in ob if len(ob[l]) >= 2)
     return _ws.std_out(spec, ctx, results, viols,
                        {'layers_with_2+_tests': shuffled_big, seedmode: 1,
-                        'order_changed': int(ob != os_)},
+                        'order_changed': int(ob != os_), **xprobes},
                        nontrivial=shuffled_big > 0)
